@@ -32,8 +32,8 @@ import (
 )
 
 func init() {
-	props["C03"] = func(r *Rec) { runC34(r, "C03") }
-	props["C04"] = func(r *Rec) { runC34(r, "C04") }
+	props["C03"] = func(r *Rec) { runC34(r, "C03"); recFor(r, "C03") }
+	props["C04"] = func(r *Rec) { runC34(r, "C04"); recFor(r, "C04") }
 }
 
 type c34 struct {
